@@ -41,6 +41,8 @@ BUDGET = {'quick': 40000, 'thorough': 1500000}
 LABELS = {'alpha': 5, 'beta': 0x1234, 'gamma_1': 255, 'zed': 0, 'omega': (1 << 40) + 3, 'kappa': 1}
 TOKEN_ALPHABET = ['+', '-', '*', '/', '%', '<<', '>>', '&', '|', '^', '(', ')', 'LSB(', 'BYTE0(', 'BYTE3(',
                   '7', '$1f', 'alpha', 'beta', '%101', '0x10', '12H', "'q'", '0']
+# characters / words that belong to no expression token: a sequence containing one is never well-formed
+FOREIGN = ['!', '#', '@', '{', '}', '[', ']', '~', '?', '=', '==', ':', '\\', '`', '"x"', '5.5', '1e3', '&&', '||', '**', '$', "''"]
 
 ISA = {
     'general': {'address_size': 16, 'endian': 'little', 'registers': ['a']},
@@ -67,7 +69,7 @@ def _cases(draw, tier):
     toks = exprs.tokens_of(ast)
     nmut = draw(st.integers(1, 2))
     for _ in range(nmut):
-        kind = draw(st.sampled_from(['del', 'dup', 'ins', 'swap', 'rep']))
+        kind = draw(st.sampled_from(['del', 'dup', 'ins', 'swap', 'rep', 'foreign']))
         if not toks:
             kind = 'ins'
         i = draw(st.integers(0, max(0, len(toks) - 1)))
@@ -75,6 +77,9 @@ def _cases(draw, tier):
             toks = toks[:i] + toks[i + 1:]
         elif kind == 'dup':
             toks = toks[:i + 1] + toks[i:]
+        elif kind == 'foreign':
+            j = draw(st.integers(0, len(toks)))
+            toks = toks[:j] + [draw(st.sampled_from(FOREIGN))] + toks[j:]
         elif kind == 'ins':
             j = draw(st.integers(0, len(toks)))
             toks = toks[:j] + [draw(st.sampled_from(TOKEN_ALPHABET))] + toks[j:]
@@ -137,6 +142,9 @@ def _run_cli(text, form):
 
 
 def execute(case, ctx):
+    if case.get('kind') == 'fuzz':
+        got = _run_api(case['text'])
+        return Outcome([], False, ['fuzz-replay:' + str(got)], 1)
     layer = case['layer']
     findings = []
     if case['kind'] == 'wf':
@@ -200,3 +208,56 @@ LEVEL_NOTE = ('Trusted: the reference evaluator in bvf/exprs.py (Fractions, writ
               'recogniser, Hypothesis. API layer imports bespokeasm.expression.parse_expression and '
               'GlobalLabelScope; the CLI layer only uses the command line. Undefined/float-ambiguous cases are not '
               'asserted (see assumptions in evidence).')
+
+
+def extra_phase(tier, seed):
+    """Coverage-guided campaign (atheris/libFuzzer) with the same oracle inside the target; empty corpus."""
+    import os
+    import shutil
+    import subprocess
+    import tempfile
+    here = os.path.dirname(os.path.dirname(os.path.dirname(os.path.abspath(__file__))))
+    if not os.path.isdir(os.path.join(here, '.deps', 'atheris')):
+        return {'report': {'atheris': 'not installed (setup_cmd installs it into .deps); campaign skipped'}}
+    shards, secs = (16, 90) if tier == 'thorough' else (4, 6)
+    root = tempfile.mkdtemp(prefix='bvf-fuzz-', dir=runner.scratch_root())
+    procs = []
+    try:
+        for k in range(shards):
+            out = os.path.join(root, f's{k}')
+            os.makedirs(os.path.join(out, 'corpus'))
+            cmd = [runner.PYTHON, os.path.join(here, 'bvf', 'fuzz', 'expr_fuzz.py'), out, os.path.join(out, 'corpus'),
+                   f'-max_total_time={secs}', f'-seed={(seed * 1000 + k) % (2 ** 31) + 1}', '-rss_limit_mb=3000',
+                   f'-artifact_prefix={out}/', '-print_final_stats=1', '-verbosity=0']
+            procs.append((out, subprocess.Popen(cmd, cwd=out, stdout=subprocess.DEVNULL, stderr=subprocess.PIPE,
+                                                env=dict(os.environ, PYTHONHASHSEED='0'))))
+        execs = wf = mal = 0
+        findings = []
+        crashes = 0
+        for out, p in procs:
+            try:
+                _, err = p.communicate(timeout=secs + 120)
+            except subprocess.TimeoutExpired:
+                p.kill()
+                err = b''
+            m = __import__('re').search(rb'number_of_executed_units: (\d+)', err or b'')
+            if m:
+                execs += int(m.group(1))
+            try:
+                st_ = json.load(open(os.path.join(out, 'stats.json')))
+                wf += st_['wellformed']
+                mal += st_['malformed']
+            except Exception:
+                pass
+            crashes += len([f for f in os.listdir(out) if f.startswith(('crash-', 'oom-', 'timeout-'))])
+            fp = os.path.join(out, 'findings.jsonl')
+            if os.path.exists(fp):
+                for line in open(fp):
+                    d = json.loads(line)
+                    findings.append((d['signature'], {'kind': 'fuzz', 'text': d['text']}, d))
+    finally:
+        shutil.rmtree(root, ignore_errors=True)
+    rep = {'engine': 'atheris 3.1 / libFuzzer', 'shards': shards, 'seconds_per_shard': secs, 'executions': execs,
+           'wellformed_at_least': wf, 'malformed_at_least': mal, 'libfuzzer_artifacts(crash/oom/timeout)': crashes,
+           'corpus': 'empty'}
+    return {'evals': execs, 'cases': execs, 'findings': findings, 'report': rep}
